@@ -283,3 +283,421 @@ Proof.
   fold (nodes_of SUBSTVAR (ws_elems (f_lead f) ++ items_elems (f_first f) (f_rest f))).
   rewrite nodes_of_app, nodes_of_ws. cbn [app]. apply field_subst_nodes.
 Qed.
+
+(* ------------------------------------------------------------------ canonicalising a relation keeps its content *)
+Lemma canon_terms_arch b l : map term_arch (canon_terms b l) = map term_arch l.
+Proof. revert b. induction l as [|t r IH]; intros b; [reflexivity|]. cbn [canon_terms map]. rewrite IH. reflexivity. Qed.
+Lemma canon_terms_profile b l : map term_profile (canon_terms b l) = map term_profile l.
+Proof. revert b. induction l as [|t r IH]; intros b; [reflexivity|]. cbn [canon_terms map]. rewrite IH. reflexivity. Qed.
+Lemma canon_terms_acc b l :
+  map (fun t => arch_acc_text (term_arch t)) (canon_terms b l) = map (fun t => arch_acc_text (term_arch t)) l.
+Proof. revert b. induction l as [|t r IH]; intros b; [reflexivity|]. cbn [canon_terms map]. rewrite IH. reflexivity. Qed.
+
+Lemma vtext_canon v : vtext (canon_vclause v) = vtext v.
+Proof. reflexivity. Qed.
+Lemma wver_of_canon v : wver_of (canon_vclause v) = wver_of v.
+Proof. reflexivity. Qed.
+
+Lemma wrel_of_canon t r : wrel_of (canon_r t r) = wrel_of r.
+Proof.
+  unfold wrel_of, canon_r. cbn [r_name r_qual r_ver r_archs r_profs]. f_equal.
+  - destruct (r_qual r); reflexivity.
+  - destruct (r_ver r); reflexivity.
+  - destruct (r_archs r) as [g|]; [|reflexivity]. cbn [option_map canon_group g_terms]. rewrite canon_terms_acc. reflexivity.
+  - rewrite map_map. apply map_ext. intros g. cbn [canon_group g_terms]. apply canon_terms_profile.
+Qed.
+
+Lemma rel_content_canon t r : rel_content (canon_r t r) = rel_content r.
+Proof.
+  unfold rel_content, canon_r. cbn [r_name r_qual r_ver r_archs r_profs]. f_equal.
+  - destruct (r_qual r); reflexivity.
+  - destruct (r_ver r); reflexivity.
+  - destruct (r_archs r) as [g|]; [|reflexivity]. cbn [option_map canon_group g_terms]. rewrite canon_terms_arch. reflexivity.
+  - rewrite map_map. apply map_ext. intros g. cbn [canon_group g_terms]. apply canon_terms_profile.
+Qed.
+
+(* ... and is well-formed *)
+Lemma canon_terms_ok l : forallb (fun t => ident_ok (t_name t)) l = true ->
+  forall b, match l with [] => true | t :: r => term_ok b (mk_term (if b then [] else [32%N]) (t_neg t) (t_name t))
+                                               && forallb (term_ok false) (canon_terms false r) end = true.
+Proof.
+  induction l as [|t r IH]; intros H b; [reflexivity|]. cbn [forallb] in H. apply andb_true_iff in H. destruct H as [Ht Hr].
+  apply andb_true_iff. split.
+  - unfold term_ok. cbn [t_ws t_name]. rewrite Ht. destruct b; reflexivity.
+  - specialize (IH Hr false). destruct r as [|t' r']; [reflexivity|]. cbn [canon_terms forallb]. exact IH.
+Qed.
+
+Lemma terms_names_ok l : terms_ok l = true -> forallb (fun t => ident_ok (t_name t)) l = true.
+Proof.
+  unfold terms_ok. destruct l as [|t r]; [discriminate|]. intros H. apply andb_true_iff in H. destruct H as [Ht Hr].
+  cbn [forallb]. apply andb_true_iff. split.
+  - unfold term_ok in Ht. andb_split Ht. exact W.
+  - rewrite forallb_forall in *. intros x Hx. specialize (Hr x Hx). unfold term_ok in Hr. andb_split Hr. exact W.
+Qed.
+
+Lemma canon_group_ok g : group_ok g = true -> group_ok (canon_group g) = true.
+Proof.
+  unfold group_ok. intros H. andb_split H. cbn [canon_group g_ws0 g_terms g_ws1 ws_ok forallb is_fws N.eqb Pos.eqb orb andb].
+  rewrite andb_true_r. pose proof (terms_names_ok _ W0) as Hn.
+  destruct (g_terms g) as [|t r]; [discriminate|]. cbn [canon_terms terms_ok]. exact (canon_terms_ok (t :: r) Hn true).
+Qed.
+
+Lemma canon_vclause_ok v : vclause_ok v = true -> vclause_ok (canon_vclause v) = true.
+Proof.
+  intros H. destruct (vclause_ok_inv v H) as (_ & _ & _ & _ & He & Hv & Hm & Hnone).
+  unfold vclause_ok, canon_vclause. cbn [v_ws0 v_ws1 v_ws2 v_ws3 v_epoch v_ver v_more ws_ok forallb is_fws N.eqb Pos.eqb orb andb].
+  rewrite He, Hv, Hm. cbn [andb]. destruct (v_epoch v); [reflexivity|]. rewrite (Hnone eq_refl). reflexivity.
+Qed.
+
+Lemma canon_r_ok t r : ws_ok t = true -> wf_rel r = true -> wf_rel (canon_r t r) = true.
+Proof.
+  intros Ht H. unfold wf_rel in *. andb_split H. cbn [canon_r r_name r_qual r_ver r_archs r_profs r_trail].
+  rewrite H, Ht, andb_true_r. cbn [andb].
+  repeat (apply andb_true_iff; split).
+  - destruct (r_qual r) as [q|]; [|reflexivity]. cbn [opt_ok option_map] in *. unfold qual_ok in *. andb_split W3. exact W4.
+  - destruct (r_ver r) as [v|]; [|reflexivity]. cbn [opt_ok option_map] in *. apply canon_vclause_ok, W2.
+  - destruct (r_archs r) as [g|]; [|reflexivity]. cbn [opt_ok option_map] in *. apply canon_group_ok, W1.
+  - rewrite forallb_forall in *. intros g Hg. apply in_map_iff in Hg. destruct Hg as (g0 & <- & Hg0). apply canon_group_ok, W0, Hg0.
+Qed.
+
+(* ------------------------------------------------------------------ the text of a canonical relation *)
+Lemma join_flat sep x xs : join sep (x :: xs) = x ++ flat_map (fun y => sep ++ y) xs.
+Proof.
+  revert x. induction xs as [|y r IH]; intros x; [cbn; rewrite app_nil_r; reflexivity|].
+  change (join sep (x :: y :: r)) with (x ++ sep ++ join sep (y :: r)). rewrite IH. cbn [flat_map]. rewrite <- app_assoc. reflexivity.
+Qed.
+
+Definition term_word (t : term) : str := neg_text (t_neg t) ++ t_name t.
+Lemma canon_terms_text_false l :
+  flat_map term_text (canon_terms false l) = flat_map (fun y => [32%N] ++ y) (map term_word l).
+Proof. induction l as [|t r IH]; [reflexivity|]. cbn [canon_terms flat_map map]. rewrite IH. reflexivity. Qed.
+Lemma canon_terms_text l : flat_map term_text (canon_terms true l) = join [32%N] (map term_word l).
+Proof.
+  destruct l as [|t r]; [reflexivity|]. cbn [canon_terms flat_map map]. rewrite join_flat, canon_terms_text_false. reflexivity.
+Qed.
+
+Lemma profile_text_term t : profile_text (term_profile t) = term_word t.
+Proof. unfold term_profile, term_word. destruct (t_neg t); reflexivity. Qed.
+
+Definition crel (r : rel) : str := canon_rel (wrel_c (wrel_of r)).
+
+Theorem rel_text_canon t r : wf_rel r = true -> rel_text (canon_r t r) = crel r ++ t.
+Proof.
+  intros H. unfold wf_rel in H. andb_split H.
+  unfold rel_text, crel, canon_rel, wrel_c, wrel_of, canon_r.
+  cbn [r_name r_qual r_ver r_archs r_profs r_trail c_name c_qual c_ver c_archs c_profs w_name w_qual w_ver w_archs w_profs].
+  rewrite <- !app_assoc. f_equal. f_equal; [|f_equal; [|f_equal; [|f_equal]]].
+  - destruct (r_qual r) as [q|]; reflexivity.
+  - destruct (r_ver r) as [v|]; [|reflexivity]. cbn [opt_ok option_map opt_text] in *.
+    destruct (wver_of_some v W2) as (pv & Ew & _ & Es). rewrite Ew. cbn [option_map fst snd]. rewrite Es.
+    unfold vclause_text, vbody_text. rewrite vtext_canon. cbn [canon_vclause v_ws0 v_ws1 v_ws2 v_ws3 v_op].
+    cbn [app]. rewrite <- ?app_assoc. reflexivity.
+  - destruct (r_archs r) as [g|]; [|reflexivity]. cbn [option_map opt_text].
+    unfold arch_text, group_text, group_body_text, canon_group. cbn [g_ws0 g_terms g_ws1].
+    rewrite canon_terms_text. cbn [app]. do 2 f_equal.
+  - rewrite flat_map_concat_map, map_map, <- flat_map_concat_map.
+    rewrite flat_map_concat_map, (flat_map_concat_map _ (map _ (r_profs r))), map_map. f_equal. apply map_ext. intros g.
+    unfold prof_text, group_text, group_body_text, canon_group. cbn [g_ws0 g_terms g_ws1].
+    rewrite canon_terms_text, map_map. rewrite (map_ext _ _ profile_text_term). cbn [app]. reflexivity.
+Qed.
+
+(* ------------------------------------------------------------------ entries, items, the field *)
+Definition tr (l : list rel) : str := match l with [] => [] | _ :: _ => [32%N] end.
+Lemma canon_alts_cons r l : canon_alts (r :: l) = ([32%N], canon_r (tr l) r) :: canon_alts l.
+Proof. destruct l; reflexivity. Qed.
+Lemma canon_item_cons r l : canon_item (r :: l) = IEntry (canon_r (tr l) r) (canon_alts l).
+Proof. destruct l; reflexivity. Qed.
+
+Lemma rels_text_canon l : forall r, Forall (fun x => wf_rel x = true) (r :: l) ->
+  rels_text (canon_r (tr l) r) (canon_alts l) = join [32; 124; 32]%N (map crel (r :: l)).
+Proof.
+  induction l as [|r' l IH]; intros r H; inversion H as [|? ? Hr Hl]; subst.
+  - cbn [canon_alts rels_text tr map join]. rewrite (rel_text_canon [] r Hr), !app_nil_r. reflexivity.
+  - rewrite canon_alts_cons. cbn [rels_text tr]. rewrite (rel_text_canon [32%N] r Hr), (IH r' Hl).
+    change (map crel (r :: r' :: l)) with (crel r :: map crel (r' :: l)).
+    change (join [32; 124; 32]%N (crel r :: map crel (r' :: l))) with (crel r ++ [32; 124; 32]%N ++ join [32; 124; 32]%N (map crel (r' :: l))).
+    rewrite <- app_assoc. reflexivity.
+Qed.
+
+Definition entry_wf (e : list rel) : Prop := e <> [] /\ Forall (fun x => wf_rel x = true) e.
+
+Lemma item_text_canon e : entry_wf e -> item_text (canon_item e) = canon_entry (map (fun r => wrel_c (wrel_of r)) e).
+Proof.
+  intros [Hne H]. destruct e as [|r l]; [congruence|]. rewrite canon_item_cons. cbn [item_text].
+  rewrite (rels_text_canon l r H). unfold canon_entry. rewrite map_map. reflexivity.
+Qed.
+
+Lemma rrender_mk_field items : rrender (mk_field items) = join [44; 32]%N (map item_text items).
+Proof.
+  destruct items as [|i r]; [reflexivity|]. unfold mk_field, rrender. cbn [f_lead f_first f_rest app].
+  revert i. induction r as [|i' r IH]; intros i; [cbn; rewrite app_nil_r; reflexivity|].
+  cbn [map items_text]. rewrite IH. reflexivity.
+Qed.
+
+(* elements of the sorted entry list *)
+Lemma field_rels_wf a f : wf_rfield a f = true -> Forall entry_wf (field_rels f).
+Proof.
+  intros H. unfold wf_rfield in H. andb_split H. unfold field_rels, f_items.
+  assert (Hi : forall i, wf_item a i = true -> Forall entry_wf (item_rels i)).
+  { intros i Hi. destruct i as [r alts|seg segs trail|]; cbn [item_rels]; [|constructor|constructor].
+    cbn [wf_item] in Hi. apply andb_true_iff in Hi. destruct Hi as [Hr Ha]. constructor; [|constructor].
+    split; [discriminate|]. constructor; [exact Hr|]. apply Forall_forall. intros x Hx. apply in_map_iff in Hx.
+    destruct Hx as ([w r'] & <- & Hin). rewrite forallb_forall in Ha. specialize (Ha _ Hin). unfold wf_alt in Ha.
+    apply andb_true_iff in Ha. apply Ha. }
+  cbn [flat_map]. apply Forall_app. split; [apply Hi, W0|].
+  clear -W Hi. induction (f_rest f) as [|[w i] r IH]; [constructor|]. cbn [map flat_map snd forallb] in *.
+  apply andb_true_iff in W. destruct W as [Hwi W]. unfold wf_more in Hwi. cbn [fst snd] in Hwi. apply andb_true_iff in Hwi.
+  apply Forall_app. split; [apply Hi, Hwi|apply IH, W].
+Qed.
+
+Lemma perm_entry_wf e e' : Permutation e e' -> entry_wf e -> entry_wf e'.
+Proof.
+  intros P [Hne H]. split.
+  - intros ->. apply Permutation_sym, Permutation_nil in P. congruence.
+  - rewrite Forall_forall in *. intros x Hx. apply H. eapply Permutation_in; [apply Permutation_sym, P|exact Hx].
+Qed.
+
+Lemma sorted_rels_wf a f : wf_rfield a f = true -> Forall entry_wf (sorted_rels f).
+Proof.
+  intros H. pose proof (field_rels_wf a f H) as Hw. unfold sorted_rels. rewrite Forall_forall in *.
+  intros e He. apply (Permutation_in _ (Permutation_sym (psort_perm rels_cmp _))) in He.
+  apply in_map_iff in He. destruct He as (e0 & <- & He0). eapply perm_entry_wf; [apply psort_perm|apply Hw, He0].
+Qed.
+
+(* substitution variables of a well-formed field *)
+Definition subst_wf (a : bool) (s : str * list str) : Prop :=
+  a = true /\ ident_ok (fst s) = true /\ forallb ident_ok (snd s) = true.
+Lemma field_substs_wf a f : wf_rfield a f = true -> Forall (subst_wf a) (field_substs f).
+Proof.
+  intros H. unfold wf_rfield in H. andb_split H. unfold field_substs, f_items.
+  assert (Hi : forall i, wf_item a i = true -> Forall (subst_wf a) (item_subst i)).
+  { intros i Hi. destruct i as [r alts|seg segs trail|]; cbn [item_subst]; [constructor| |constructor].
+    cbn [wf_item] in Hi. andb_split Hi. constructor; [|constructor]. unfold subst_wf. cbn [fst snd]. auto. }
+  cbn [flat_map]. apply Forall_app. split; [apply Hi, W0|].
+  clear -W Hi. induction (f_rest f) as [|[w i] r IH]; [constructor|]. cbn [map flat_map snd forallb] in *.
+  apply andb_true_iff in W. destruct W as [Hwi W]. unfold wf_more in Hwi. cbn [fst snd] in Hwi. apply andb_true_iff in Hwi.
+  apply Forall_app. split; [apply Hi, Hwi|apply IH, W].
+Qed.
+Lemma sorted_substs_wf a f : wf_rfield a f = true -> Forall (subst_wf a) (sorted_substs f).
+Proof.
+  intros H. pose proof (field_substs_wf a f H) as Hw. unfold sorted_substs. rewrite Forall_forall in *.
+  intros s Hs. apply Hw. eapply Permutation_in; [apply Permutation_sym, psort_perm|exact Hs].
+Qed.
+
+(* ------------------------------------------------------------------ canon_field f is well-formed *)
+Lemma canon_alts_wf l : Forall (fun x => wf_rel x = true) l -> forallb wf_alt (canon_alts l) = true.
+Proof.
+  induction l as [|r l IH]; intros H; [reflexivity|]. inversion H as [|? ? Hr Hl]; subst.
+  rewrite canon_alts_cons. cbn [forallb]. rewrite (IH Hl), andb_true_r. unfold wf_alt. cbn [fst snd].
+  rewrite canon_r_ok; [reflexivity| |exact Hr]. destruct l; reflexivity.
+Qed.
+Lemma canon_item_wf a e : entry_wf e -> wf_item a (canon_item e) = true.
+Proof.
+  intros [Hne H]. destruct e as [|r l]; [congruence|]. inversion H as [|? ? Hr Hl]; subst.
+  rewrite canon_item_cons. cbn [wf_item]. rewrite (canon_alts_wf l Hl), andb_true_r.
+  apply canon_r_ok; [destruct l; reflexivity|exact Hr].
+Qed.
+
+Lemma mk_field_wf a items : Forall (fun i => wf_item a i = true) items -> wf_rfield a (mk_field items) = true.
+Proof.
+  intros H. destruct items as [|i r]; [reflexivity|]. inversion H as [|? ? Hi Hr]; subst.
+  unfold mk_field, wf_rfield. cbn [f_lead f_first f_rest ws_ok forallb]. rewrite Hi. cbn [andb].
+  clear -Hr. induction Hr as [|x l Hx _ IH]; [reflexivity|]. cbn [map forallb]. rewrite IH, andb_true_r.
+  unfold wf_more. cbn [fst snd]. rewrite Hx. reflexivity.
+Qed.
+
+Theorem canon_field_wf a f : wf_rfield a f = true -> wf_rfield a (canon_field f) = true.
+Proof.
+  intros H. unfold canon_field. apply mk_field_wf. apply Forall_app. split.
+  - pose proof (sorted_rels_wf a f H) as Hw. apply Forall_forall. intros i Hi. apply in_map_iff in Hi.
+    destruct Hi as (e & <- & He). rewrite Forall_forall in Hw. apply canon_item_wf, Hw, He.
+  - pose proof (sorted_substs_wf a f H) as Hw. apply Forall_forall. intros i Hi. apply in_map_iff in Hi.
+    destruct Hi as (s & <- & Hs). rewrite Forall_forall in Hw. destruct (Hw s Hs) as (-> & H1 & H2).
+    cbn [wf_item]. rewrite H1, H2. reflexivity.
+Qed.
+
+(* ------------------------------------------------------------------ sorting the abstract field = sorting its content *)
+Lemma sorted_rels_content f : map (map wrel_of) (sorted_rels f) = sorted_content (field_wcontent f).
+Proof.
+  unfold sorted_rels, sorted_content, field_wcontent.
+  rewrite <- (psort_map (map wrel_of) wentry_cmp rels_cmp) by reflexivity.
+  f_equal. rewrite !map_map. apply map_ext. intros e.
+  rewrite <- (psort_map wrel_of wrel_cmp rel_cmp) by reflexivity. reflexivity.
+Qed.
+
+Definition subst_node_of (s : str * list str) : rtree := subst_node (fst s) (snd s).
+Definition subst_text_of (s : str * list str) : str := subst_text (fst s) (snd s).
+
+Lemma sorted_subst_nodes f :
+  psort by_text (substvar_nodes (rtree_of f)) = map subst_node_of (sorted_substs f).
+Proof.
+  rewrite substvar_nodes_rtree_of. fold subst_node_of. unfold sorted_substs.
+  apply (psort_map subst_node_of by_text subst_cmp). intros x y _ _. unfold by_text, subst_node_of, subst_cmp.
+  rewrite !text_subst_node. reflexivity.
+Qed.
+
+(* ------------------------------------------------------------------ the text of canon_field f *)
+Theorem rrender_canon_field a f : wf_rfield a f = true ->
+  rrender (canon_field f) =
+  canon_text (map (map wrel_c) (sorted_content (field_wcontent f))) (map subst_text_of (sorted_substs f)).
+Proof.
+  intros H. unfold canon_field. rewrite rrender_mk_field, map_app, !map_map. unfold canon_text. f_equal. f_equal.
+  - rewrite <- sorted_rels_content, !map_map. pose proof (sorted_rels_wf a f H) as Hw. rewrite Forall_forall in Hw.
+    apply map_ext_in. intros e He. rewrite (item_text_canon e (Hw e He)), map_map. reflexivity.
+  - apply map_ext. intros s. cbn [item_text fst snd]. rewrite app_nil_r. reflexivity.
+Qed.
+
+(* ------------------------------------------------------------------ the content of canon_field f *)
+Lemma f_items_mk_field {B} (F : item -> list B) items : F IEmpty = [] ->
+  flat_map F (f_items (mk_field items)) = flat_map F items.
+Proof.
+  intros HF. destruct items as [|i r]; [cbn; rewrite HF; reflexivity|].
+  unfold mk_field, f_items. cbn [f_first f_rest]. rewrite map_map. cbn [snd]. rewrite map_id. reflexivity.
+Qed.
+
+Lemma canon_alts_content {B} (F : rel -> B) (HF : forall t r, F (canon_r t r) = F r) l :
+  map F (map snd (canon_alts l)) = map F l.
+Proof.
+  induction l as [|r l IH]; [reflexivity|]. rewrite canon_alts_cons. cbn [map snd]. rewrite HF, IH. reflexivity.
+Qed.
+
+Lemma field_rels_items items substs :
+  field_rels (mk_field (items ++ map (fun s => ISubst (fst s) (snd s) []) substs)) = flat_map item_rels items.
+Proof.
+  unfold field_rels. rewrite (f_items_mk_field item_rels) by reflexivity. rewrite flat_map_app.
+  replace (flat_map item_rels (map (fun s => ISubst (fst s) (snd s) []) substs)) with (@nil (list rel)).
+  - apply app_nil_r.
+  - induction substs as [|s r IH]; [reflexivity|]. exact IH.
+Qed.
+
+Lemma field_substs_items items substs : (forall i, In i items -> item_subst i = []) ->
+  field_substs (mk_field (items ++ map (fun s => ISubst (fst s) (snd s) []) substs)) = substs.
+Proof.
+  intros Hi. unfold field_substs. rewrite (f_items_mk_field item_subst) by reflexivity. rewrite flat_map_app.
+  replace (flat_map item_subst items) with (@nil (str * list str)).
+  - cbn [app]. induction substs as [|[seg segs] r IH]; [reflexivity|]. cbn [map flat_map item_subst fst snd app]. rewrite IH. reflexivity.
+  - symmetry. induction items as [|i r IH]; [reflexivity|]. cbn [flat_map]. rewrite (Hi i (or_introl eq_refl)), IH; [reflexivity|].
+    intros j Hj. apply Hi. right. exact Hj.
+Qed.
+
+Lemma canon_item_no_subst e : item_subst (canon_item e) = [].
+Proof. destruct e as [|r l]; [reflexivity|]. rewrite canon_item_cons. reflexivity. Qed.
+
+Theorem field_substs_canon f : field_substs (canon_field f) = sorted_substs f.
+Proof.
+  unfold canon_field. apply field_substs_items. intros i Hi. apply in_map_iff in Hi. destruct Hi as (e & <- & _).
+  apply canon_item_no_subst.
+Qed.
+
+(* F: anything that canonicalising a relation leaves alone (wrel_of, rel_content) *)
+Lemma field_rels_canon_map {B} (F : rel -> B) (HF : forall t r, F (canon_r t r) = F r) a f : wf_rfield a f = true ->
+  map (map F) (field_rels (canon_field f)) = map (map F) (sorted_rels f).
+Proof.
+  intros H. unfold canon_field. rewrite field_rels_items.
+  pose proof (sorted_rels_wf a f H) as Hw. induction Hw as [|e l He _ IH]; [reflexivity|].
+  cbn [map flat_map]. rewrite map_app, IH. destruct He as [Hne _]. destruct e as [|r t]; [congruence|].
+  rewrite canon_item_cons. cbn [item_rels map app]. rewrite HF, (canon_alts_content F HF). reflexivity.
+Qed.
+
+Theorem field_wcontent_canon a f : wf_rfield a f = true ->
+  field_wcontent (canon_field f) = sorted_content (field_wcontent f).
+Proof.
+  intros H. unfold field_wcontent at 1. rewrite (field_rels_canon_map wrel_of wrel_of_canon a f H). apply sorted_rels_content.
+Qed.
+
+Lemma rcontent_rels f :
+  rcontent f = (map (map rel_content) (field_rels f), map subst_text_of (field_substs f)).
+Proof.
+  unfold rcontent, field_rels, field_substs. f_equal.
+  - induction (f_items f) as [|i r IH]; [reflexivity|]. cbn [flat_map]. rewrite map_app, <- IH. f_equal.
+    destruct i as [r0 alts|seg segs trail|]; [|reflexivity|reflexivity]. cbn [item_entries item_rels map]. rewrite map_map. reflexivity.
+  - induction (f_items f) as [|i r IH]; [reflexivity|]. cbn [flat_map]. rewrite map_app, <- IH. f_equal.
+    destruct i as [r0 alts|seg segs trail|]; reflexivity.
+Qed.
+
+Theorem same_content_canon a f : wf_rfield a f = true -> same_content (rcontent f) (rcontent (canon_field f)).
+Proof.
+  intros H. rewrite !rcontent_rels. unfold same_content. cbn [fst snd]. split.
+  - rewrite (field_rels_canon_map rel_content rel_content_canon a f H). unfold sorted_rels.
+    exists (map (map rel_content) (map (psort rel_cmp) (field_rels f))). split.
+    + rewrite map_map. induction (field_rels f) as [|e l IH]; [constructor|]. cbn [map]. constructor; [|exact IH].
+      apply Permutation_map, psort_perm.
+    + apply Permutation_map, psort_perm.
+  - rewrite field_substs_canon. apply Permutation_map, psort_perm.
+Qed.
+
+Theorem field_safe_canon a f : wf_rfield a f = true -> field_safe f = true -> field_safe (canon_field f) = true.
+Proof.
+  intros H Hs. unfold field_safe in *. rewrite (field_wcontent_canon a f H). apply sorted_content_safe, Hs.
+Qed.
+
+(* ------------------------------------------------------------------ the theorems of props/C13.v *)
+(* the tree wrap_and_sort returns for the well-formed field f *)
+Definition ws_tree (f : rfield) : rtree :=
+  field_tree fixed (sorted_content (field_wcontent f)) (map subst_node_of (sorted_substs f)).
+
+Theorem ws_rtree_of a f : wf_rfield a f = true -> field_safe f = true ->
+  relations_ws fixed (rtree_of f) = Ok (ws_tree f).
+Proof.
+  intros H Hs. rewrite (relations_ws_spec (rtree_of f) (field_wcontent f) (wacc_rtree_of a f H) Hs).
+  rewrite sorted_subst_nodes. reflexivity.
+Qed.
+
+Lemma text_subst_nodes l : map text (map subst_node_of l) = map subst_text_of l.
+Proof. rewrite map_map. apply map_ext. intros s. apply text_subst_node. Qed.
+
+Theorem text_ws_tree a f : wf_rfield a f = true ->
+  text (ws_tree f) = canon_text (map (map wrel_c) (sorted_content (field_wcontent f))) (map subst_text_of (sorted_substs f)) /\
+  text (ws_tree f) = rrender (canon_field f).
+Proof.
+  intros H. unfold ws_tree. rewrite text_field_tree, text_subst_nodes. split; [reflexivity|].
+  symmetry. apply (rrender_canon_field a f H).
+Qed.
+
+(* (4) a second application returns the same tree; so does an application to the re-read text *)
+Theorem ws_tree_idem a f : wf_rfield a f = true -> field_safe f = true ->
+  relations_ws fixed (ws_tree f) = Ok (ws_tree f) /\
+  relations_ws fixed (rtree_of (canon_field f)) = Ok (ws_tree f).
+Proof.
+  intros H Hs. split.
+  - pose proof (relations_ws_idem (rtree_of f) (field_wcontent f) (ws_tree f) (wacc_rtree_of a f H) Hs (ws_rtree_of a f H Hs)) as [_ E].
+    exact E.
+  - pose proof (canon_field_wf a f H) as Hc. rewrite (ws_rtree_of a (canon_field f) Hc (field_safe_canon a f H Hs)).
+    unfold ws_tree. rewrite (field_wcontent_canon a f H), sorted_content_idem. f_equal. f_equal.
+    unfold sorted_substs at 1. rewrite field_substs_canon. f_equal. apply psort_id.
+    + intros x y. unfold subst_cmp. destruct str_cmp_ok as (Ha & _). apply Ha.
+    + apply psort_sorted. intros x y. unfold subst_cmp. destruct str_cmp_ok as (Ha & _). apply Ha.
+Qed.
+
+(* the accessors of the returned object *)
+Theorem wacc_ws_tree a f : wf_rfield a f = true -> field_safe f = true ->
+  wacc (ws_tree f) = Ok (sorted_content (field_wcontent f)) /\
+  substvar_nodes (ws_tree f) = map subst_node_of (sorted_substs f).
+Proof.
+  intros H Hs.
+  assert (Hsv : Forall is_substvar_node (map subst_node_of (sorted_substs f))).
+  { apply Forall_forall. intros e He. apply in_map_iff in He. destruct He as (s & <- & _). eexists. reflexivity. }
+  split.
+  - apply wacc_field_tree; [|exact Hsv]. apply sorted_content_ok. eapply wacc_ok. apply (wacc_rtree_of a f H).
+  - apply substvar_nodes_tree, Hsv.
+Qed.
+
+(* From<Vec<Relation>> for Entry / From<Vec<Entry>> for Relations are modelled a second time in the
+   C11 cone (RelEdit.v, by position); the two transcriptions are the same function *)
+From V.model Require RelEdit.
+Lemma entry_from_is_RelEdit rs : entry_from rs = RelEdit.entry_from_relations RelEdit.fixed rs.
+Proof.
+  unfold entry_from, RelEdit.entry_from_relations. f_equal.
+  destruct rs as [|x r]; [reflexivity|]. cbn [RelEdit.join_relations app].
+  generalize 0%nat. revert x. induction r as [|y r IH]; intros x i; [reflexivity|].
+  change (sep_by [sp; Tok PIPE [124%N]; sp] (x :: y :: r)) with (x :: [sp; Tok PIPE [124%N]; sp] ++ sep_by [sp; Tok PIPE [124%N]; sp] (y :: r)).
+  rewrite (IH y (S i)). reflexivity.
+Qed.
+Lemma relations_from_is_RelEdit es : relations_from es = RelEdit.relations_from_entries es.
+Proof.
+  unfold relations_from, RelEdit.relations_from_entries. f_equal.
+  destruct es as [|x r]; [reflexivity|]. cbn [RelEdit.join_entries app].
+  generalize 0%nat. revert x. induction r as [|y r IH]; intros x i; [reflexivity|].
+  change (sep_by [Tok COMMA [44%N]; sp] (x :: y :: r)) with (x :: [Tok COMMA [44%N]; sp] ++ sep_by [Tok COMMA [44%N]; sp] (y :: r)).
+  rewrite (IH y (S i)). reflexivity.
+Qed.
